@@ -8,9 +8,9 @@ VERIF="$(cd "$(dirname "$0")/.." && pwd)"
 CHECKS="$*"; [ -z "$CHECKS" ] && CHECKS=$(/venv/bin/python -c "import json;print(' '.join(c['property_id'] for c in json.load(open('$VERIF/MANIFEST.json'))['checks']))")
 W="$(mktemp -d /tmp/evalseed.XXXXXX)"; trap 'rm -rf "$W"' EXIT
 rsync -a --exclude .git --exclude .coverage --exclude coverage.xml --exclude _seed /repo/ "$W/repo/"
-( cd "$W/repo" && PYTHONPATH="$W/repo" PYTHONDONTWRITEBYTECODE=1 timeout 600 /venv/bin/python "$SEED/demo.py" >"$W/demo_clean.log" 2>&1 ); echo "demo on unchanged tree: exit $? (want 0)"
+( cd "$W/repo" && OMP_NUM_THREADS=1 OPENBLAS_NUM_THREADS=1 PYTHONPATH="$W/repo" PYTHONDONTWRITEBYTECODE=1 timeout 1800 /venv/bin/python "$SEED/demo.py" >"$W/demo_clean.log" 2>&1 ); echo "demo on unchanged tree: exit $? (want 0)"
 ( cd "$W/repo" && patch -p1 --no-backup-if-mismatch -s < "$SEED/patch.diff" ) || { echo "PATCH-FAILED"; exit 3; }
-( cd "$W/repo" && PYTHONPATH="$W/repo" PYTHONDONTWRITEBYTECODE=1 timeout 600 /venv/bin/python "$SEED/demo.py" >"$W/demo_patched.log" 2>&1 ); echo "demo on changed tree:   exit $? (want 1): $(tail -2 "$W/demo_patched.log" | tr '\n' ' ' | cut -c1-200)"
+( cd "$W/repo" && OMP_NUM_THREADS=1 OPENBLAS_NUM_THREADS=1 PYTHONPATH="$W/repo" PYTHONDONTWRITEBYTECODE=1 timeout 1800 /venv/bin/python "$SEED/demo.py" >"$W/demo_patched.log" 2>&1 ); echo "demo on changed tree:   exit $? (want 1): $(tail -2 "$W/demo_patched.log" | tr '\n' ' ' | cut -c1-200)"
 BASELINE_TIMEOUT=60 timeout 600 "$VERIF/selftest/baseline.py" "$W/repo" | head -3
 echo "full suite from tests/: $(timeout 900 "$VERIF/selftest/fulltests.sh" "$W/repo" | tail -3 | tr '\n' ' ' | cut -c1-250)"
 for P in $CHECKS; do
